@@ -1873,3 +1873,8 @@ def _negate_suspend_arm_classification(src):
 
 
 M2("c06-envelope-classification-inverted", "C06", "R5.envelope-opened-by-classification", [{"file": "execution.py", "fn": _negate_suspend_arm_classification}])
+M("c06-producer-sees-the-flag-after-put-and-sleeps", "C06", "R2.handshake-producer-recheck-after-put", "state.py",
+  "            if self._checkpointing_failed.is_set():\n                self._checkpointing_failed.wait()\n\n            # Wait for completion",
+  "            if self._checkpointing_failed.is_set():\n                pass\n\n            # Wait for completion")
+M("c09-fail-fast-reported-without-a-failure", "C09", "R3.fail-fast-means-any-failure", "concurrency/models.py",
+  "        if completion_config is None:\n            if failure_count > 0:", "        if completion_config is None:\n            if failure_count >= 0:")
